@@ -580,7 +580,19 @@ func (ro *rollout) judgeSync(before rolloutSnapshot, sr *syncResult) rolloutVerd
 	if v.Condition != nil {
 		if reason, _ := v.Condition["reason"].(string); reason == "RolloutWaiting" {
 			allFine := true
-			for _, n := range latestRecorded {
+			// the children the latest revision names once this sync's bookkeeping is done (children
+			// added to it during this very sync included), judged by their state before the sync
+			var latestAfter []string
+			for c, rv := range recordedAfter {
+				if rv == latestRev {
+					latestAfter = append(latestAfter, c)
+				}
+			}
+			sort.Strings(latestAfter)
+			if len(latestAfter) == 0 {
+				allFine = false // nothing on the latest revision: the message cannot be about a healthy child
+			}
+			for _, n := range latestAfter {
 				if !desired[n] {
 					continue
 				}
@@ -592,7 +604,7 @@ func (ro *rollout) judgeSync(before rolloutSnapshot, sr *syncResult) rolloutVerd
 			}
 			if allFine && haveOrder {
 				msg, _ := v.Condition["message"].(string)
-				ro.viol("C08", "waits-on-healthy-children:"+normalizeErr(ro.sc.ID, msg), fmt.Sprintf("the rollout reports RolloutWaiting (%q) although every child on the latest revision %v exists, is up to date and passes its status checks", msg, latestRecorded), sr, before)
+				ro.viol("C08", "waits-on-healthy-children:"+normalizeErr(ro.sc.ID, msg), fmt.Sprintf("the rollout reports RolloutWaiting (%q) although every child on the latest revision %v exists, is up to date and passes its status checks", msg, latestAfter), sr, before)
 			}
 		}
 	}
